@@ -310,6 +310,21 @@ def check_exports(ctx, rng, M, tn, kind):
     """M is a labelled model object: one export of it is the same function under M.mapping, and convert_solution
     carries solutions of the export back to assignments of M with the same value"""
     src = ref.from_raw(kind, dict(M))
+    if rng.random() < 0.3:
+        # the caller uses what the accessors handed out (documented as copies): joins it with another table, renumbers it, empties it
+        for tab_ in (M.mapping, M.reverse_mapping):
+            how_ = rng.choice(["clear", "shift", "pop-one"])
+            try:
+                if how_ == "clear":
+                    tab_.clear()
+                elif how_ == "shift":
+                    for k_ in list(tab_):
+                        tab_[k_] = ("moved", k_)
+                elif tab_:
+                    tab_.pop(next(iter(tab_)))
+            except Exception:   # noqa
+                pass
+        ctx.cat("mapping-copies-edited-by-caller-before-export")
     forms = ["qubo", "quso", "pubo", "puso", "enum"] if src.degree() <= 2 else \
         [("pubo" if True else ""), "puso", "enum"]
     form = rng.choice(forms)
@@ -367,6 +382,12 @@ def check_exports(ctx, rng, M, tn, kind):
                 s = s + [rng.choice((1, -1) if sform == "spin" else (0, 1)) for _ in range(rng.randint(1, 2))]
                 ctx.cat("convert_solution:longer-than-the-model")
             sol = s if cont == "list" else (tuple(s) if cont == "tuple" else dict(enumerate(s)))
+            if cont == "dict" and len(s) >= 2 and rng.random() < 0.5:
+                # a dict is read by key, whatever order its items were inserted in
+                items_ = list(enumerate(s))
+                rng.shuffle(items_)
+                sol = dict(items_)
+                ctx.cat("convert_solution:dict-in-shuffled-insertion-order")
             flag = sform == "spin"
             if any(v in (0, -1) for v in s) and rng.random() < 0.3:
                 # documented: the flag only matters for an all-ones solution; otherwise the solution tells its own form
